@@ -119,6 +119,7 @@ func protoLong(args []string) int {
 	two := fs.Int("twoway", 40, "random 2-way cuts per stream in addition to the structural ones")
 	bmax := fs.Int("byte-max", 20000, "byte-at-a-time for streams up to this many bytes")
 	maxm := fs.Int("max-mismatch", 20, "stop after this many mismatches")
+	burst := fs.Bool("burst", false, "deliver each stream in one write while the connection is busy")
 	fs.Parse(args)
 	tok, err := proto.LoadTokens(*tokf)
 	if err != nil {
@@ -131,7 +132,7 @@ func protoLong(args []string) int {
 		return 2
 	}
 	st, mism, err := proto.RunLong(cases, tok, proto.LongConfig{Par: *par, Seed: seedFromEnv(), RandomCuts: *rnd, TwoWay: *two,
-		ByteMax: *bmax, MaxMismatch: *maxm})
+		ByteMax: *bmax, MaxMismatch: *maxm, Burst: *burst})
 	if err != nil {
 		fmt.Fprintln(os.Stderr, "harness error:", err)
 		return 2
